@@ -229,6 +229,15 @@ CHECKS["C19"] = dict(
           "the observations (Junk_Trace.tla)."),
     technique="TLA+ Junk.tla contract evaluated by TLC on recorded handler runs over a grammar of typed frame mutations; differential run for the second connection")
 
+CHECKS["C11"] = dict(
+    cat="model_checking", ref="DESIGN.md §5 C11", note=QUERY_NOTE,
+    text=("Pairs_Trace.tla: for seeded splits S < S+N of a 24-event universe that contains byte-order neighbours of everything the "
+          "filters ask for, every filter of the grammar is answered over both stores through the REQ path on both backends; TLC "
+          "evaluates, per line, the precondition (no event of N matches the filter even loosely; g narrows f; the parts are the "
+          "single-value restrictions of one multi-valued condition) and the conclusion (same answer set; subset; union) - the harness "
+          "decides nothing about matching."),
+    technique="TLA+ Pairs_Trace.tla (Unaffected / Monotone / UnionOfSingles over Nostr.tla Matches) evaluated by TLC on paired answers of the real REQ path")
+
 NOT_YET = {}
 
 
